@@ -70,7 +70,7 @@ var profiles = map[string]profile{
 	"format": {name: "format", pub: 50, del: 15, delmulti: 3, gc: 2, sync: 2, reopen: 20,
 		minOps: 8, maxOps: 30, smallRoll: 70, rmIdx: 25, tools: 15, bigVals: true, foreign: 8},
 	"backup": {name: "backup", pub: 50, del: 22, delmulti: 4, trim: 3, gc: 3, clock: 2, sync: 2, reopen: 14,
-		minOps: 8, maxOps: 30, smallRoll: 85, noIdxLoss: true, tools: 15},
+		minOps: 8, maxOps: 30, smallRoll: 85, rmIdx: 20, tools: 15},
 	"lock": {name: "lock", pub: 60, del: 30, reopen: 10, minOps: 5, maxOps: 30, smallRoll: 85},
 	"protocol": {name: "protocol", pub: 40, del: 30, delmulti: 6, sync: 6, reopen: 14, gc: 1,
 		minOps: 6, maxOps: 16, smallRoll: 95, rmIdx: 10, tools: 30, tailBias: true},
